@@ -234,7 +234,7 @@ func (b *builder) randomMsg() script.CMsg {
 	return script.CMsg{K: "H"}
 }
 
-var batchKinds = []string{"copy-in-batch", "clean", "clean", "parse-error", "bind-unknown", "describeS-unknown", "describeP-unknown", "execute-unknown", "execute-fails-before-rows", "execute-fails-after-rows", "execute-panics", "failing-query-in-open-batch", "random", "random", "simple-query", "unknown-type", "close-then-use"}
+var batchKinds = []string{"copy-in-batch", "clean", "clean", "parse-error", "bind-unknown", "describeS-unknown", "describeP-unknown", "execute-unknown", "execute-fails-before-rows", "execute-fails-after-rows", "execute-panics", "failing-query-in-open-batch", "bind-with-odd-format-count", "random", "random", "simple-query", "unknown-type", "close-then-use"}
 
 func genCase(t *rapid.T) Case {
 	c := Case{}
@@ -303,6 +303,32 @@ func genCase(t *rapid.T) Case {
 			b.pipeline(k[3], "E")
 		case "execute-panics":
 			b.pipeline(k[7], "E")
+		case "bind-with-odd-format-count":
+			// a Bind whose number of parameter format codes is neither 0, 1 nor the number of values: the
+			// property does not say whether it is served or refused - but it is answered: BindComplete, or
+			// one ErrorResponse with the rest of the batch skipped (stepwise cases only: the outcome decides
+			// what the following messages mean)
+			if c.Pipelined {
+				b.pipeline(k[0], "E")
+				break
+			}
+			stmt, portal := b.pipeline(k[0], "P")
+			m := script.CMsg{K: "B", Portal: portal, Name: stmt, AltFail: true}
+			nv := rapid.IntRange(0, 3).Draw(t, "nvalues")
+			for j := 0; j < nv; j++ {
+				v := []byte("v")
+				m.Params = append(m.Params, &v)
+			}
+			nf := rapid.SampledFrom([]int{2, 3, 5}).Draw(t, "nformats")
+			if nf == nv {
+				nf++
+			}
+			for j := 0; j < nf; j++ {
+				m.PFmts = append(m.PFmts, int16(rapid.IntRange(0, 1).Draw(t, "pfmt")))
+			}
+			b.emit(m)
+			delete(b.fresh, portal) // (how its parameters are tagged is not settled either: it is not executed)
+			b.emit(script.CMsg{K: "D", Kind: 'P', Portal: portal})
 		case "failing-query-in-open-batch":
 			// a simple Query is its own cycle wherever it stands: failing after Parse / Bind without a Sync
 			// in between, it is still answered ErrorResponse + ReadyForQuery and nothing is discarded
